@@ -92,6 +92,8 @@ def mk_array(kind, L, seed):
     if kind == 'smooth':
         x = np.arange(1, L + 1) / float(L); return np.exp(-3 * x) * np.cos(7 * x) * rng.uniform(0.5, 2)
     if kind == 'wide': return rng.normal(size=L) * 10 ** rng.uniform(-6, 6, size=L)
+    if kind == 'int': return rng.randint(-3, 4, size=L)                  # integer-typed samples (e.g. np.where(r <= R, 1, 0))
+    if kind == 'bool': return rng.uniform(size=L) < 0.5                  # boolean indicator (r <= R)
     return np.ones(L)
 
 def suite_transform(ctx, case):
@@ -104,6 +106,7 @@ def suite_transform(ctx, case):
         else: d.dk = v; drv.ask('dom.set dk ' + f2h(v))
     L = int(d.length)
     f = mk_array(case['akind'], L, case['aseed']); g = mk_array('normal', L, case['aseed'] + 1); a = case.get('a', 1.7)
+    f_given = f.copy()
     try:
         F = d.to_fourier(f); fb = d.to_real(F); R = d.to_real(f); Fb = d.to_fourier(R)
     except Exception as e:
@@ -111,6 +114,8 @@ def suite_transform(ctx, case):
     ok = len(F) == L and len(R) == L
     ctx.pred('transform', case, ok, 'transform output length %d/%d vs %d' % (len(F), len(R), L), key='C07:grid-size')
     if not ok: return
+    ctx.pred('transform', case, bool(np.array_equal(f, f_given)) and f.dtype == f_given.dtype, 'a transform modified the array it was given', key='C07:purity')
+    f = np.asarray(f, dtype=float)
     mf = drv.ask('dom.tf ' + fl(f)); mr = drv.ask('dom.tr ' + fl(f))
     ctx.corr('transform', case, mf, fl(F), rtol=1e-9, scale=float(np.max(np.abs(F))) + 1e-300, what='to_fourier vs model direct sum')
     ctx.corr('transform', case, mr, fl(R), rtol=1e-9, scale=float(np.max(np.abs(R))) + 1e-300, what='to_real vs model direct sum')
@@ -139,6 +144,7 @@ def suite_ma(ctx, case):
     L = int(d.length); n = case['rank']
     rng = np.random.RandomState(case['aseed'])
     data = rng.normal(size=(L, n, n)); data = data + data.transpose(0, 2, 1)
+    if case.get('zero'): data = np.zeros((L, n, n))                      # a freshly allocated (all-zero) MatrixArray
     for dirn in case['dirs']:
         lay = case.get('layout', 'C')
         if lay == 'F': arr = np.asfortranarray(data.copy())
@@ -194,6 +200,7 @@ def gen_len(rng, maxL):
 def gen_spacing(rng):
     c = rng.random()
     if c < 0.35: return rng.choice([0.1, 0.05, 0.025, 0.3, 0.7, 0.01, 0.2, 1.0])
+    if c < 0.45: return rng.choice([1, 2, 1, 3])                         # integer-TYPED spacings (Domain(length, dr=1))
     return float('%.5g' % (10 ** rng.uniform(-3, 1)))
 
 def gen_dom(rng, maxL, maxops):
@@ -239,7 +246,7 @@ def generate(ctx):
         suite_setters(ctx, case)
     for _ in range(ctx.n(150, 1500)):
         case = gen_dom(rng, min(maxL, ctx.n(48, 160)), 4)
-        case['akind'] = rng.choice(['normal', 'normal', 'spike', 'smooth', 'wide', 'ones']); case['aseed'] = rng.randrange(10 ** 6)
+        case['akind'] = rng.choice(['normal', 'normal', 'spike', 'smooth', 'wide', 'ones', 'int', 'bool']); case['aseed'] = rng.randrange(10 ** 6)
         case['a'] = float('%.4g' % rng.uniform(-3, 3))
         L = cur_len(case)
         ctx.case('transform', case, True, tags=['akind:' + case['akind'], 'L<=%d' % (16 * ((L + 15) // 16)), 'hist' if case['ops'] else 'nohist'])
@@ -252,7 +259,8 @@ def generate(ctx):
         case['rank'] = rng.randint(1, 4); case['sp'] = rng.choice(['R', 'R', 'F', 'F', 'N']); case['aseed'] = rng.randrange(10 ** 6)
         case['dirs'] = [rng.choice(['F', 'R', 'FR', 'RF', 'FF', 'RR', 'FRF', 'RFR'])]
         case['layout'] = rng.choice(['C', 'C', 'F', 'T', 'sub'])
+        case['zero'] = rng.random() < 0.15
         # type labels: default letters, a permutation of them, or other names (several arrays of one rank with different labels in one process)
         case['types'] = rng.choice([None, None, rng.sample(['A', 'B', 'C', 'D'][:case['rank']], case['rank']), ['poly', 'B', 'solvent', 'D4'][:case['rank']]])
-        ctx.case('ma', case, True, tags=['rank:%d' % case['rank'], 'sp:' + case['sp'], 'dirs:' + case['dirs'][0], 'layout:' + case['layout']])
+        ctx.case('ma', case, True, tags=['zero' if case['zero'] else 'nonzero', 'rank:%d' % case['rank'], 'sp:' + case['sp'], 'dirs:' + case['dirs'][0], 'layout:' + case['layout']])
         suite_ma(ctx, case)
